@@ -119,6 +119,10 @@ def seq_enumerated():
     T('string-to-bytes', 'const byte[] b = "xyz" is byte[]; write(b[x % 3 * (x % 3)]); sleep(b.length); write(b);')
     T('literal-index', 'sleep([x, y, 3][1]); sleep([x + 1, y][0]); write("abc"[1]); write([\'p\', \'q\'][0]);')
     T('length-forms', 'sleep(ga.length + gc.length + gba.length + gfa.length + "four".length); sleep((ga is bool) is int); sleep(("" is bool) is int);')
+    T('bool-cast-value', "bool b = x is bool; sleep(b is int); sleep((not b) is int); if (b == true) { write('T'); } bool[] a = [b, y is bool, false]; sleep(a[1] is int); a[2] = x is bool; sleep(a[2] is int); sleep(((x is byte) is bool) is int);")
+    T('vla-then-array', 'int n = x % 3; if (n < 1) { n = 1; } int a[n]; a[n - 1] = 7; int[] b = [y, y, y]; sleep(a[n - 1]); sleep(b[0]); a[0] = 5; sleep(b[2]); sleep(a[0]);')
+    T('vla-then-vla', 'int n = x % 3; if (n < 1) { n = 1; } int a[n]; bool f[n + 8]; byte c[n]; a[n - 1] = y; c[0] = 9; f[n + 7] = true; f[0] = true; sleep(a[n - 1]); write(c[0]); sleep(f[n + 7] is int);')
+    T('vla-string-then-array', 'int n = x % 3; if (n < 1) { n = 1; } string a[n]; a[n - 1] = "zz"; int[] b = [y, y]; write(a[n - 1]); sleep(b[1]); b[0] = 1; write(a[n - 1]);')
     # many arguments / deep expression temporaries
     T('deep-expr', 'sleep(((x + 1) * (y + 2)) - ((x - 3) * (y - 4)) + (h(x, y) * h(y, x)));')
     T('deep-keep', 'sleep(f(x) + f(y) * (f(1) - f(2)));')
@@ -339,6 +343,12 @@ empty !pd(int a) {
     !truth_is_defeat(not t and a > 1);
     write('>');
 }
+empty !pe(int a) {
+    write('[');
+    preempt { write('!'); g += 10; }
+    !truth_is_defeat(a > 1);
+    write(']');
+}
 """
 
 
@@ -365,10 +375,14 @@ def try_unit(kind, k, var):
         return "try { write('%s'); !pd(%s); write('%s'); } undo { write('%s'); }" % (a, var, b, c)
     if kind == 'pdfunc-stop':
         return "try { write('%s'); !pd(%s); !truth_is_defeat(%s > 3); write('%s'); } stop { write('%s'); }" % (a, var, var, b, c)
+    if kind == 'pefunc':
+        return "try { write('%s'); !pe(%s); write('%s'); } undo { write('%s'); }" % (a, var, b, c)
+    if kind == 'pefunc-stop':
+        return "try { write('%s'); !pe(%s); write('%s'); } stop { write('%s'); }" % (a, var, b, c)
     raise ValueError(kind)
 
 
-TRY_KINDS = ['undo', 'stop', 'undo-call', 'stop-call', 'spec', 'preempt', 'preempt-stop', 'pdfunc', 'pdfunc-stop']
+TRY_KINDS = ['undo', 'stop', 'undo-call', 'stop-call', 'spec', 'preempt', 'preempt-stop', 'pdfunc', 'pdfunc-stop', 'pefunc', 'pefunc-stop']
 
 
 def time_enumerated(tier='quick'):
@@ -383,7 +397,7 @@ def time_enumerated(tier='quick'):
     # histories: ordered pairs (and triples in the thorough tier) in one activation
     for a, b in itertools.product(TRY_KINDS, repeat=2):
         T('pair-%s-%s' % (a, b), try_unit(a, 0, 'x') + '\n' + try_unit(b, 1, 'y') + " sleep(g); write('.');")
-    triples = list(itertools.product(['undo', 'stop', 'stop-call', 'spec', 'pdfunc', 'preempt-stop'], repeat=3))
+    triples = list(itertools.product(['undo', 'stop', 'stop-call', 'spec', 'pdfunc', 'preempt-stop', 'pefunc-stop'], repeat=3))
     if tier != 'thorough':
         triples = random.Random(7).sample(triples, 30)
     for a, b, c in triples:
@@ -393,7 +407,7 @@ def time_enumerated(tier='quick'):
         T('calls-%s-%s' % (a, b), "@sub(x); " + try_unit(b, 1, 'y') + " @sub(y); write('.');",
           extra='empty @sub(int v) { %s }\n' % try_unit(a, 0, 'v'))
     # inside loops with symbolic trip count
-    for k in ['undo', 'stop', 'stop-call', 'preempt-stop', 'pdfunc', 'spec']:
+    for k in ['undo', 'stop', 'stop-call', 'preempt-stop', 'pdfunc', 'pefunc-stop', 'spec']:
         T('loop-' + k, "for (int i = 0; i < y %% 3; i += 1) { %s x -= 1; } write('.');" % try_unit(k, 0, 'x'))
     # exits out of a try
     for h in ('undo', 'stop'):
@@ -481,8 +495,10 @@ class TimeGen:
             return '!d1(%s);' % s.ie()
         if c < 0.58:
             return 'sleep(!dv(%s));' % s.ie()
-        if c < 0.66:
+        if c < 0.62:
             return '!pd(%s);' % s.ie()
+        if c < 0.66:
+            return '!pe(%s);' % s.ie()
         if c < 0.76:
             return 'preempt ' + s.try_block(d - 1, loop)
         if c < 0.84 and d > 0:
@@ -600,7 +616,7 @@ class CfGen:
             return 'try %s %s %s' % (s.block(d - 1, kind, loop, True), r.choice(['undo', 'stop']), s.block(d - 1, kind, loop, False))
         if d > 0 and x < 0.97 and intry:
             return 'preempt %s' % s.block(d - 1, kind, loop, intry)
-        return r.choice(['a -= 1;', 'c -= 1;'])
+        return r.choice(['a = 0;', 'c = 0;', 'b = 1;'])
 
     def block(s, d, kind, loop, intry):
         return '{ ' + ' '.join(s.stmt(d, kind, loop, intry) for _ in range(s.r.randrange(1, 4))) + ' }'
@@ -649,12 +665,12 @@ def cf_enumerated():
     out = []
     bodies = [(x,) for x in atoms] + list(itertools.product(atoms[:10], atoms[:10]))
     for i, b in enumerate(bodies):
-        src = ("int f(int a, int b) { %s }\nempty sentinel() { write('#'); write('#'); all_is_broken(); }\n"
+        src = ("int f(int a, int b) { b = b %% 3; %s }\nempty sentinel() { write('#'); write('#'); all_is_broken(); }\n"
                "empty @is_you(int a, int b) { sleep(f(a, b)); write('.'); }\n" % ' '.join(b))
         out.append(C('cf/enum-%d' % i, src))
     ybodies = [(x,) for x in you_atoms] + list(itertools.product(you_atoms, atoms[:6])) + list(itertools.product(atoms[4:10], you_atoms))
     for i, b in enumerate(ybodies):
-        src = ("int @f(int a, int b) { %s }\nempty sentinel() { write('#'); write('#'); all_is_broken(); }\n"
+        src = ("int @f(int a, int b) { b = b %% 3; %s }\nempty sentinel() { write('#'); write('#'); all_is_broken(); }\n"
                "empty @is_you(int a, int b) { sleep(@f(a, b)); write('.'); }\n" % ' '.join(b))
         out.append(C('cf/you-enum-%d' % i, src))
     return out
@@ -692,13 +708,14 @@ def fault_templates():
         T('idx-read-const-' + el, "const %s[] gv = %s;\nempty @is_you(int i) { write('p'); %s write('q'); }\n" % (el, lit, obs % 'gv[i]'))
         T('idx-read-param-' + el, "empty rd(const %s[] v, int i) { write('p'); %s write('q'); }\nempty @is_you(int i) { %s[] a = %s; rd(a, i); rd(%s, i); }\n" % (el, obs % 'v[i]', el, lit, lit))
         T('idx-write-param-' + el, "empty wr(%s[] v, int i) { write('p'); v[i] = %s; write('q'); }\nempty @is_you(int i) { %s[] a = %s; wr(a, i); %s }\n" % (el, val, el, lit, obs % 'a[2]'))
-        if el != 'bool':
+        if el == 'int':
             T('idx-compound-' + el, mark + "empty @is_you(int i) { %s[] v = %s; write('p'); v[mi('i', i)] += mi('r', 1)%s; write('q'); %s }\n" % (el, lit, '' if el == 'int' else '', obs % 'v[1]'))
     for n in (0, 1, 3):
         T('idx-arg-ints-%d' % n, "empty @is_you(int i, int[] xs) { write('p'); sleep(xs[i]); xs[i] = 1; write('q'); }\n", xs=n)
         T('idx-arg-bytes-%d' % n, "empty @is_you(int i, const byte[] xs) { write('p'); write(xs[i]); write('q'); }\n", xs=n)
         T('idx-arg-string-%d' % n, "empty @is_you(int i, string s) { write('p'); write(s[i]); write('q'); }\n", s=[n])
         T('idx-arg-strings-%d' % n, "empty @is_you(int i, const string[] xs) { write('p'); write(xs[i]); write('q'); }\n", xs=[1] * n)
+    T('idx-compound-byte', mark + "empty @is_you(int i) { byte[] v = ['a', 'b', 'c']; write('p'); v[mi('i', i)] += mk('r'); write('q'); write(v[1]); }\n")
     T('idx-string-literal', "empty @is_you(int i) { write('p'); write(\"hello\"[i]); write('q'); }\n")
     T('idx-string-var', "empty @is_you(int i, int k) { string s = \"ab\"; if (k > 0) { s = \"wxyz\"; } write('p'); write(s[i]); write('q'); }\n")
     T('idx-string-bytes', "empty @is_you(int i) { const byte[] b = \"hey\" is byte[]; write('p'); write(b[i]); write('q'); }\n")
@@ -771,6 +788,8 @@ def alloc_templates():
         T('vla-' + el, "int n = x; %s v[n]; write('k'); sleep(v.length);" % el)
         T('vla-after-lit-' + el, "int[] a = [1, 2, 3]; %s v[x]; write('k'); sleep(a[2]); sleep(v.length);" % el)
     T('vla-two', "int a[x]; int b[y]; write('k'); sleep(a.length + b.length);")
+    T('vla-then-array', "int n = x % 3; if (n < 1) { n = 1; } int a[n]; a[n - 1] = 7; int[] b = [y, y, y]; sleep(a[n - 1]); sleep(b[0]); a[0] = 5; sleep(b[2]); sleep(a[0]);")
+    T('vla-then-call', "int n = x % 3; if (n < 1) { n = 1; } int a[n]; a[n - 1] = 7; sleep(mk(y)); sleep(a[n - 1]);", extra='int mk(int v) { int[] t = [v, v, v]; return t[2]; }\n')
     T('vla-in-loop', "for (int i = 0; i < 3; i += 1) { int a[x]; if (x > 0) { a[0] = i; sleep(a[0]); } } write('k');")
     T('vla-in-try', "try { int a[x]; if (x > 0) { a[0] = 1; } !truth_is_defeat(y > 0); write('n'); } stop { write('s'); } int b[2]; b[1] = 5; sleep(b[1]);")
     T('lit-in-loop-try', "for (int i = 0; i < 2; i += 1) { try { int[] a = [i, x, y]; !truth_is_defeat(a[1] > 0); sleep(a[2]); } undo { write('u'); } }")
